@@ -17,10 +17,90 @@ HARNESSES = {
 }
 
 
+# BOUNDED stand-ins (never counted as proved): a function outside Verus' reach is extracted verbatim into a
+# scratch crate together with a harness over symbolic inputs of bounded size (unwinding assertions on).
+EXTRACTED = {
+    'C01': [dict(file='crates/oq3_syntax/src/validation.rs', fn='unquote', harness='unquote_never_panics', unwind=6,
+                 bound='every text of at most 3 ASCII bytes, prefix_len <= 2, end delimiter `"` or `\'`',
+                 claim='validation.rs::unquote (nested in validate_literal) returns normally (no slice / char-boundary panic)',
+                 body='''#[cfg(kani)]
+#[kani::proof]
+#[kani::unwind(6)]
+fn unquote_never_panics() {
+    let bytes: [u8; 3] = kani::any();
+    let len: usize = kani::any();
+    kani::assume(len <= 3);
+    kani::assume(bytes[0] < 128 && bytes[1] < 128 && bytes[2] < 128);
+    let text = unsafe { std::str::from_utf8_unchecked(&bytes[..len]) };
+    let prefix: usize = kani::any();
+    kani::assume(prefix <= 2);
+    let d = if kani::any() { '"' } else { '\\'' };
+    if let Some(s) = unquote(text, prefix, d) { assert!(s.len() <= len); }
+}
+''')],
+}
+
+
+def _extract_fn(path, name):
+    from .rustsrc import RustFile
+    rf = RustFile(path)
+    m = None
+    for mm in re.finditer(r'\bfn\s+' + re.escape(name) + r'\b', rf.src):
+        if rf.code[mm.start()]:
+            m = mm
+            break
+    if m is None:
+        return None
+    b = rf.src.index('{', m.end())
+    while not rf.code[b]:
+        b = rf.src.index('{', b + 1)
+    e = rf.match_brace(b)
+    return rf.src[m.start():e]
+
+
+def run_extracted(prop, scratch):
+    out = []
+    status = 0
+    viol = []
+    for h in EXTRACTED.get(prop, []):
+        text = _extract_fn(os.path.join(REPO, h['file']), h['fn'])
+        if text is None:
+            out.append(dict(harness=h['harness'], verdict='undecided', detail='function %s not found in %s' % (h['fn'], h['file'])))
+            status = 2
+            continue
+        d = os.path.join(scratch, 'kani_x_' + h['harness'])
+        os.makedirs(os.path.join(d, 'src'), exist_ok=True)
+        open(os.path.join(d, 'Cargo.toml'), 'w').write('[package]\nname = "oq3_kani_x"\nversion = "0.0.0"\nedition = "2021"\n[workspace]\n')
+        open(os.path.join(d, 'src', 'lib.rs'), 'w').write('#![allow(dead_code)]\n' + text + '\n' + h['body'])
+        env = dict(os.environ, CARGO_NET_OFFLINE='true', CARGO_TARGET_DIR=os.path.join(d, 'target'))
+        try:
+            p = subprocess.run(['cargo', 'kani', '--harness', h['harness']], cwd=d, env=env, stdout=subprocess.PIPE, stderr=subprocess.STDOUT, text=True, timeout=1500)
+            o = p.stdout
+        except subprocess.TimeoutExpired:
+            o = 'TIMEOUT'
+        if 'VERIFICATION:- SUCCESSFUL' in o:
+            out.append(dict(harness=h['harness'], verdict='verified-bounded', bounded=True, backend='kani/cbmc', bound=h['bound'], claim=h['claim'],
+                            extraction='function text copied verbatim from %s on this run' % h['file']))
+        elif 'VERIFICATION:- FAILED' in o:
+            failed = re.findall(r'Status: FAILURE\s*\n\s*- Description: "([^"]*)"', o)
+            path = os.path.join(os.environ.get('OQ3_REPLAY_DIR', os.path.join(VERIF, 'replays')), prop, 'kani_%s.json' % h['harness'])
+            os.makedirs(os.path.dirname(path), exist_ok=True)
+            json.dump(dict(property=prop, obligation='kani-bounded::%s' % h['harness'], verifier='kani', bound=h['bound'], failed_checks=failed[:10],
+                           verifier_output=o[-6000:], counterexample=None), open(path, 'w'), indent=1)
+            viol.append('VIOLATION property=%s replay=%s no-failing-input-found' % (prop, path))
+            out.append(dict(harness=h['harness'], verdict='FAILED', bounded=True, failed_checks=failed[:5]))
+        else:
+            out.append(dict(harness=h['harness'], verdict='undecided', detail=o[-1500:]))
+            status = 2
+        shutil.rmtree(d, ignore_errors=True)
+    return out, viol, status
+
+
 def run(prop, spec, scratch):
     todo = HARNESSES.get(prop)
-    if not todo:
+    if not todo and prop not in EXTRACTED:
         return {}
+    todo = todo or []
     dst = os.path.join(scratch, 'kani_repo')
     shutil.copytree(REPO, dst, ignore=shutil.ignore_patterns('target', '.git'))
     results = []
@@ -60,5 +140,10 @@ def run(prop, spec, scratch):
     finally:
         shutil.rmtree(dst, ignore_errors=True)
         shutil.rmtree(os.path.join(scratch, 'kani_target'), ignore_errors=True)
-    return dict(extra=dict(kani=results, kani_harnesses=sum(1 for r in results if r.get('verdict') == 'verified')),
+    xres, xviol, xstatus = run_extracted(prop, scratch)
+    viol += xviol
+    if xstatus == 2:
+        status = 2
+    return dict(extra=dict(kani=results, kani_harnesses=sum(1 for r in results if r.get('verdict') == 'verified'),
+                           bounded_obligations=xres),
                 violations=viol, status=status)
